@@ -1,0 +1,32 @@
+// Copyright The Notary Project Authors.
+// Licensed under the Apache License, Version 2.0 (the "License");
+// you may not use this file except in compliance with the License.
+// You may obtain a copy of the License at
+//
+// http://www.apache.org/licenses/LICENSE-2.0
+//
+// Unless required by applicable law or agreed to in writing, software
+// distributed under the License is distributed on an "AS IS" BASIS,
+// WITHOUT WARRANTIES OR CONDITIONS OF ANY KIND, either express or implied.
+// See the License for the specific language governing permissions and
+// limitations under the License.
+
+//go:build verif
+
+package plugin
+
+import "github.com/notaryproject/notation-go/internal/semver"
+
+// VerifComparePluginVersion exposes the version comparison that decides
+// whether an installation replaces an installed plugin, so that a
+// verification harness outside this module can compare it with a reference
+// implementation. Only built with the "verif" tag.
+func VerifComparePluginVersion(v, w string) (int, error) {
+	return semver.ComparePluginVersion(v, w)
+}
+
+// VerifIsValidVersion exposes the version validity test. Only built with the
+// "verif" tag.
+func VerifIsValidVersion(v string) bool {
+	return semver.IsValid(v)
+}
